@@ -95,37 +95,43 @@ example :
 
 example : BatLaw oddOps ∧ ¬ LoadIdem oddOps := ⟨oddOps_law, oddOps_not_idem⟩
 
-/-- **Vehicles and stationary batteries never break the limit when there is no surplus.**  As above, now with any
-number of stationary batteries at the connector (first loop: discharge above / charge below
+/-- **Vehicles and stationary batteries never break the limit** — with or without a generation surplus.  As above, now
+with any number of stationary batteries at the connector (first loop: discharge above / charge below
 `min(self.peak_power, cur_max_power)` inside a window, balanced charging until the window change outside; second loop:
-restore, add surplus, apply): if the loads before the step are within `[0, cur_max_power]` and `self.peak_power ≥ 0`, the
-connector's load after `step_gc` is within `[0, cur_max_power]`.  Well-formedness: the batteries of the connector have
-distinct ids that are neither keys of the connector's loads nor station ids of vehicles, and non-negative minimum
-charging powers.
+restore, add the surplus still in `gc_loads`, apply, write the real average back): if the loads before the step are at
+most `cur_max_power ≥ 0` and `self.peak_power ≥ 0`, the connector's load after `step_gc` is at most `cur_max_power` and at
+least `min(load_before, 0)` (so within `±cur_max_power` when it was).  Well-formedness: the batteries of the connector
+have distinct ids that are neither keys of the connector's loads nor station ids of vehicles, and non-negative
+minimum charging powers.  Battery: `BatLaw`, `LoadIdem`, `LoadMin`.
 
-This is a theorem about the REPAIRED in-window branch (fixes/PLW1.diff); on the pinned code it needed
-`self.peak_power ≤ cur_max_power` (key `C04:…:peak_load_window:draw:batteries:in_window`).  `_partial`: still excluded are
-(a) a generation surplus before the step TOGETHER WITH stationary batteries (not a known failure: the second battery loop
-then adds the remaining surplus to the planned powers battery by battery, updating `gc_loads` in between; unproved), and
-(b) a battery without exact target-power delivery (mechanism (c)). -/
+Proof idea for the surplus case: the vehicle hand-out leaves the connector in `[load_before, max(prognosis, 0)]`; the
+first battery loop keeps the total of `gc_loads` at most the limit; in the second loop, while that total is negative,
+a charging battery asked for `planned + surplus` delivers at least what it delivered for `planned` and at most the
+surplus more (`LoadMin`), so the total rises monotonically but not above 0; once it is non-negative the loop repeats
+the simulated calls exactly; and the connector ends exactly at the final total.
+
+`_partial`: still excluded is a battery without exact target-power delivery (mechanism (c), finding PLWc). -/
 theorem C04_peak_load_window_limit_partial (ops : BatOps α B) (law : BatLaw ops) (idem : LoadIdem ops)
-    (env : PEnv α) (hi : 0 < env.interval) (hsum : ∀ l, env.sum l = l.sum) (w w' : PWorld α B) (g : PGc α)
-    (level : String) (cmds : List (String × α))
+    (lmin : LoadMin ops) (env : PEnv α) (hi : 0 < env.interval) (hsum : ∀ l, env.sum l = l.sum)
+    (w w' : PWorld α B) (g : PGc α) (level : String) (cmds : List (String × α))
     (hbid : ((w.batteries.filter (fun b => b.parent == g.gc.id)).map (·.id)).Nodup)
     (hbkey : ∀ b ∈ w.batteries, (b.parent == g.gc.id) = true → sdGet g.gc.loads b.id = none)
     (hbcs : ∀ b ∈ w.batteries, (b.parent == g.gc.id) = true → ∀ pv ∈ w.vehicles, pv.v.cs ≠ some b.id)
     (hbmin : ∀ b ∈ w.batteries, (b.parent == g.gc.id) = true → 0 ≤ b.minChargingPower)
     (hpk0 : 0 ≤ g.peak)
-    (hs : 0 ≤ g.gc.currentLoad) (hlim : g.gc.currentLoad ≤ g.gc.curMax)
+    (hcm : 0 ≤ g.gc.curMax) (hlim : g.gc.currentLoad ≤ g.gc.curMax)
     (h : stepGc ops env w g level = .ok (w', cmds)) :
     ∀ g' ∈ w'.gcs, g'.gc.id = g.gc.id →
-      g'.gc.curMax = g.gc.curMax ∧ 0 ≤ g'.gc.currentLoad ∧ g'.gc.currentLoad ≤ g.gc.curMax :=
-  stepGc_limit_bat ops law idem env hi hsum w g level w' cmds hbid hbkey hbcs hbmin hpk0 hs hlim h
+      g'.gc.curMax = g.gc.curMax ∧ min g.gc.currentLoad 0 ≤ g'.gc.currentLoad ∧
+        g'.gc.currentLoad ≤ g.gc.curMax :=
+  stepGc_limit_bat2 ops law idem lmin env hi hsum w g level w' cmds hbid hbkey hbcs hbmin hpk0 hcm hlim h
 
-/-- a connector with a 5 kW limit, 4 kW fixed load and the given `peak_power`, and one stationary battery -/
-def exBatGc (peak : ℚ) : PGc ℚ := ⟨⟨"G", 5, none, [("load", 4)]⟩, "op", some "MV", none, peak⟩
-def exBatWorld (peak : ℚ) : PWorld ℚ ℚ :=
-  { gcs := [exBatGc peak], stations := [], vehicles := [], batteries := [⟨"B", "G", 0, 1/2⟩] }
+/-- a connector with a 5 kW limit, the given loads and `peak_power`, and one stationary battery -/
+def exBatGcL (loads : List (String × ℚ)) (peak : ℚ) : PGc ℚ := ⟨⟨"G", 5, none, loads⟩, "op", some "MV", none, peak⟩
+def exBatWorldL (loads : List (String × ℚ)) (peak : ℚ) : PWorld ℚ ℚ :=
+  { gcs := [exBatGcL loads peak], stations := [], vehicles := [], batteries := [⟨"B", "G", 0, 1/2⟩] }
+def exBatGc (peak : ℚ) : PGc ℚ := exBatGcL [("load", 4)] peak
+def exBatWorld (peak : ℚ) : PWorld ℚ ℚ := exBatWorldL [("load", 4)] peak
 
 /-- non-vacuity: at 02:00 (inside the window), `peak_power` = 5 kW = the limit: the battery is charged with the 1 kW
 that is left below the peak, the connector ends at 5 kW -/
@@ -134,39 +140,55 @@ example : loadOf (stepGc (toyOps 10 11) (exEnvAt 2) (exBatWorld 5) (exBatGc 5) "
 
 example (w' : PWorld ℚ ℚ) (cmds : List (String × ℚ))
     (h : stepGc (toyOps 10 11) (exEnvAt 2) (exBatWorld 5) (exBatGc 5) "MV" = .ok (w', cmds)) :
-    ∀ g' ∈ w'.gcs, g'.gc.id = "G" → g'.gc.curMax = 5 ∧ 0 ≤ g'.gc.currentLoad ∧ g'.gc.currentLoad ≤ 5 :=
-  C04_peak_load_window_limit_partial (toyOps 10 11) (toyOps_law 10 11) (toyOps_idem 10 11) (exEnvAt 2)
-    (by decide) (fun _ => rfl) _ w' (exBatGc 5) "MV" cmds (by decide +kernel) (by decide +kernel)
-    (by simp [exBatWorld]) (by decide +kernel) (by decide +kernel) (by decide +kernel) (by decide +kernel) h
+    ∀ g' ∈ w'.gcs, g'.gc.id = "G" → g'.gc.curMax = 5 ∧ min (exBatGc 5).gc.currentLoad 0 ≤ g'.gc.currentLoad ∧
+      g'.gc.currentLoad ≤ 5 :=
+  C04_peak_load_window_limit_partial (toyOps 10 11) (toyOps_law 10 11) (toyOps_idem 10 11) (toyOps_lmin 10 11)
+    (exEnvAt 2) (by decide) (fun _ => rfl) _ w' (exBatGc 5) "MV" cmds (by decide +kernel) (by decide +kernel)
+    (by simp [exBatWorld, exBatWorldL]) (by decide +kernel) (by decide +kernel) (by decide +kernel) (by decide +kernel) h
 
-/-- the situation of the finding on the repaired branch: the same connector with `peak_power` = 6 kW above the 5 kW
-limit: inside the window the battery is charged with the 1 kW that is left below the LIMIT, the connector ends at 5 kW
-(pinned code: 2 kW, 6 kW) -/
+/-- non-vacuity of the surplus case: 3 kW generation surplus outside windows (00:00, window change in two steps): the
+battery plans 2.5 kW (balanced), 0.5 kW surplus is left in `gc_loads`, the second loop asks for 3 kW: the connector ends
+at 0 kW; inside the window (02:00) with a battery that can only take 1 kW the connector ends at −2 kW -/
+example : loadOf (stepGc (toyOps 10 11) exEnv (exBatWorldL [("pv", -3)] 0) (exBatGcL [("pv", -3)] 0) "MV") = [0] ∧
+    loadOf (stepGc (toyOps 10 1) (exEnvAt 2) (exBatWorldL [("pv", -3)] 5) (exBatGcL [("pv", -3)] 5) "MV") = [-2] := by
+  decide +kernel
+
+example (w' : PWorld ℚ ℚ) (cmds : List (String × ℚ))
+    (h : stepGc (toyOps 10 11) exEnv (exBatWorldL [("pv", -3)] 0) (exBatGcL [("pv", -3)] 0) "MV" = .ok (w', cmds)) :
+    ∀ g' ∈ w'.gcs, g'.gc.id = "G" → g'.gc.curMax = 5 ∧
+      min (exBatGcL [("pv", -3)] 0).gc.currentLoad 0 ≤ g'.gc.currentLoad ∧ g'.gc.currentLoad ≤ 5 :=
+  C04_peak_load_window_limit_partial (toyOps 10 11) (toyOps_law 10 11) (toyOps_idem 10 11) (toyOps_lmin 10 11)
+    exEnv (by decide) (fun _ => rfl) _ w' (exBatGcL [("pv", -3)] 0) "MV" cmds (by decide +kernel) (by decide +kernel)
+    (by simp [exBatWorldL]) (by decide +kernel) (by decide +kernel) (by decide +kernel) (by decide +kernel) h
+
+/-- the situation of the former finding on the repaired branch (PLW1): `peak_power` = 6 kW above the 5 kW limit: inside
+the window the battery is charged with the 1 kW that is left below the LIMIT, the connector ends at 5 kW -/
 example : loadOf (stepGc (toyOps 10 11) (exEnvAt 2) (exBatWorld 6) (exBatGc 6) "MV") = [5] := by
   decide +kernel
 
-/-- **The whole step: every connector stays within its limit.**  `PeakLoadWindow.step` is the fold of `step_gc` over the
-connectors, each call working on the world the previous ones left.  If connector ids, vehicle ids and battery ids are
-unique and EVERY connector satisfies the premise `GcOK` before the step (load within `[0, cur_max_power]`, i.e. fixed
-load and generation respect the limit and there is no surplus; `0 ≤ peak_power`; the batteries at it
-have ids that are neither load keys nor station ids, and non-negative minimum powers), then after the step every
-connector's load is within `[0, cur_max_power]`.  The proof needs the frame of `step_gc` (`stepGc_frame`: a call writes only
-its own connector, the battery state of its batteries and battery state / schedule of vehicles).
+/-- **The whole step: every connector stays within its limit** — with or without generation surpluses.
+`PeakLoadWindow.step` is the fold of `step_gc` over the connectors, each call working on the world the previous ones left.
+If connector ids, vehicle ids and battery ids are unique and EVERY connector satisfies the premise `GcOK` before the step
+(load within `±cur_max_power`, i.e. fixed load and generation respect the limit; `cur_max_power ≥ 0`; `peak_power ≥ 0`; the
+batteries at it have ids that are neither load keys nor station ids, and non-negative minimum powers), then after the
+step every connector's load is within `±cur_max_power`.  The proof needs the frame of `step_gc` (`stepGc_frame`: a call
+writes only its own connector, the battery state of its batteries and battery state / schedule of vehicles).
 
-`_partial`: the excluded situations are those of `C04_peak_load_window_limit_partial` (a surplus — covered per connector
-without batteries by `C04_peak_load_window_vehicles_partial`; a battery without exact target-power delivery). -/
+`_partial`: excluded is only a battery without exact target-power delivery (`LoadIdem`, `LoadMin`; mechanism (c),
+finding PLWc). -/
 theorem C04_peak_load_window_step_limit_partial (ops : BatOps α B) (law : BatLaw ops) (idem : LoadIdem ops)
-    (env : PEnv α) (hi : 0 < env.interval) (hsum : ∀ l, env.sum l = l.sum) (w w' : PWorld α B)
+    (lmin : LoadMin ops) (env : PEnv α) (hi : 0 < env.interval) (hsum : ∀ l, env.sum l = l.sum) (w w' : PWorld α B)
     (cmds : List (String × α))
     (hgn : (w.gcs.map (fun g => g.gc.id)).Nodup) (hvn : ((vmeta w.vehicles).map Prod.fst).Nodup)
     (hbn : ((bmeta w.batteries).map Prod.fst).Nodup)
     (hok : ∀ g ∈ w.gcs, GcOK (vmeta w.vehicles) (bmeta w.batteries) g)
     (h : step ops env w = .ok (w', cmds)) :
-    ∀ g' ∈ w'.gcs, 0 ≤ g'.gc.currentLoad ∧ g'.gc.currentLoad ≤ g'.gc.curMax :=
-  step_limit ops law idem env hi hsum w w' cmds hgn hvn hbn hok h
+    ∀ g' ∈ w'.gcs, -g'.gc.curMax ≤ g'.gc.currentLoad ∧ g'.gc.currentLoad ≤ g'.gc.curMax :=
+  step_limit ops law idem lmin env hi hsum w w' cmds hgn hvn hbn hok h
 
-/-- two connectors (G: 20 kW limit, 18 kW load; H: 10 kW limit, 3 kW load, one battery), one vehicle at each -/
-def exTwoH : PGc ℚ := ⟨⟨"H", 10, none, [("load", 3)]⟩, "op", some "MV", none, 5⟩
+/-- two connectors (G: 20 kW limit, 18 kW load; H: 10 kW limit, 3 kW load and 9 kW generation, one battery), one
+vehicle at each -/
+def exTwoH : PGc ℚ := ⟨⟨"H", 10, none, [("load", 3), ("pv", -9)]⟩, "op", some "MV", none, 5⟩
 def exTwo : PWorld ℚ ℚ :=
   { gcs := [exGc [("load", 18)], exTwoH],
     stations := [⟨"cs1", "G", 11, 0, 0⟩, ⟨"cs2", "H", 11, 0, 0⟩],
@@ -174,22 +196,24 @@ def exTwo : PWorld ℚ ℚ :=
                  ⟨⟨"v2", some "cs2", 1, some (2 * exHour), 0, false, 0, 1/2⟩, [11, 11], none⟩],
     batteries := [⟨"B", "H", 0, 1/2⟩] }
 
-/-- non-vacuity of the step theorem: G gets the 2 kW that are left, H charges its vehicle with 2.5 kW and (outside
-windows) its battery balanced until the window begins: 2.5 kW -/
-example : cmdsOf (step (toyOps 10 11) exEnv exTwo) = [("cs1", 2), ("cs2", 5/2)] ∧
-    loadOf (step (toyOps 10 11) exEnv exTwo) = [20, 8] := by
+/-- non-vacuity of the step theorem: G gets the 2 kW that are left; H has a 6 kW surplus: its vehicle is planned with
+2.5 kW and takes 5 kW (surplus hand-out), its battery (outside windows) charges balanced until the window begins:
+2.5 kW; H ends at 1.5 kW -/
+example : cmdsOf (step (toyOps 10 11) exEnv exTwo) = [("cs1", 2), ("cs2", 5)] ∧
+    loadOf (step (toyOps 10 11) exEnv exTwo) = [20, 3/2] := by
   decide +kernel
 
 example (w' : PWorld ℚ ℚ) (cmds : List (String × ℚ)) (h : step (toyOps 10 11) exEnv exTwo = .ok (w', cmds)) :
-    ∀ g' ∈ w'.gcs, 0 ≤ g'.gc.currentLoad ∧ g'.gc.currentLoad ≤ g'.gc.curMax := by
-  refine C04_peak_load_window_step_limit_partial (toyOps 10 11) (toyOps_law 10 11) (toyOps_idem 10 11) exEnv
+    ∀ g' ∈ w'.gcs, -g'.gc.curMax ≤ g'.gc.currentLoad ∧ g'.gc.currentLoad ≤ g'.gc.curMax := by
+  refine C04_peak_load_window_step_limit_partial (toyOps 10 11) (toyOps_law 10 11) (toyOps_idem 10 11)
+    (toyOps_lmin 10 11) exEnv
     (by decide) (fun _ => rfl) exTwo w' cmds (by decide +kernel) (by decide +kernel) (by decide +kernel) ?_ h
   intro g hg
   simp only [exTwo, List.mem_cons, List.not_mem_nil, or_false] at hg
   rcases hg with rfl | rfl
   · exact ⟨by decide +kernel, by decide +kernel, by decide +kernel, by decide +kernel, by decide +kernel,
-      by decide +kernel⟩
+      by decide +kernel, by decide +kernel⟩
   · exact ⟨by decide +kernel, by decide +kernel, by decide +kernel, by decide +kernel, by decide +kernel,
-      by decide +kernel⟩
+      by decide +kernel, by decide +kernel⟩
 
 end SpiceEv
